@@ -161,6 +161,13 @@ def hostrangePop (r : HRange) : Option Str × HRange :=
      { r with hi := subU64 r.hi 1 })
   else (none, r)
 
+/-- the iterators after `hostlist_pop` shortened the last record to `r'` (F16-ENDPUSH repaired:
+    `hostlist_shift_iterators(hl, hl->nranges - 1, hr->hi - hr->lo + 1, 0)`) -/
+def popIts (cfg : Cfg) (e1 : EL) (r' : HRange) : List (Nat × ItSt) :=
+  if cfg.fixEndPush then
+    (shiftIterators e1 ((e1.rs.length : Int) - 1) ((subU64 r'.hi r'.lo + 1 : Nat) : Int) 0).its
+  else e1.its
+
 /-- DEFECT D20: `hostlist_pop` frees an emptied last record without telling the iterators: one
     that points at it keeps a dangling `i->hr` (`x,y`: iterate to y, pop, push z, next reads the
     freed record).   Repaired: the record is deleted through `hostlist_delete_range`.
@@ -177,7 +184,10 @@ def popE (cfg : Cfg) (e : EL) : EM (Option Str × EL) :=
              .ok (host, deleteRange cfg { e with rs := e.rs.dropLast ++ [{ o with r := r' }], nhosts := e.nhosts - 1 }
                           (e.rs.length - 1))
            else .ok (host, { e with rs := e.rs.dropLast, nhosts := e.nhosts - 1 }))
-        else .ok (host, { e with rs := e.rs.dropLast ++ [{ o with r := r' }], nhosts := e.nhosts - 1 })
+        else
+          let e1 : EL := { e with rs := e.rs.dropLast ++ [{ o with r := r' }], nhosts := e.nhosts - 1 }
+          -- F16-ENDPUSH repaired: iterators that stood on the popped host step back
+          .ok (host, { e1 with its := popIts cfg e1 r' })
   else .ok (none, e)
 
 /-! ### find / delete -/
@@ -288,27 +298,40 @@ def itFree (e : EL) (k : Nat) : EL := { e with its := e.its.filter (·.1 != k) }
 /-- `hostlist_iterator_reset` -/
 def itReset (e : EL) (k : Nat) : EL := e.setIt k e.resetIt
 
-/-- `_iterator_advance` on the cached record -/
-def itAdvance (e : EL) (it : ItSt) : EM ItSt :=
-  if it.idx > (e.rs.length : Int) - 1 then .ok it
+/-- `_iterator_advance`: is there a next host, and the iterator then.
+    FINDING F16-ENDPUSH: the code as found works on the CACHED record `i->hr` and, at the end, leaves
+    the iterator past the last record (`idx = nranges`, `hr = NULL`): a host pushed afterwards is
+    read through the NULL pointer when it makes a new record, and is never seen when it joins the
+    last record.  Repaired: the record is looked up by position, and an iterator with nothing left
+    stays on the last host it handed out. -/
+def itAdvance (cfg : Cfg) (e : EL) (it : ItSt) : EM (Bool × ItSt) :=
+  if it.idx > (e.rs.length : Int) - 1 then .ok (false, it)
+  else if cfg.fixEndPush then
+    match e.deref (e.hrAt it.idx) with
+    | .error w => .error w
+    | .ok o =>
+      if (it.depth + 1).toNat > subU64 o.r.hi o.r.lo then
+        (if it.idx = (e.rs.length : Int) - 1 then .ok (false, { it with hr := some o.id })
+         else .ok (true, ⟨it.idx + 1, 0, e.hrAt (it.idx + 1)⟩))
+      else .ok (true, { it with depth := it.depth + 1, hr := some o.id })
   else
     match e.deref it.hr with
     | .error w => .error w
     | .ok o =>
       if (it.depth + 1).toNat > subU64 o.r.hi o.r.lo then
-        .ok ⟨it.idx + 1, 0, e.hrAt (it.idx + 1)⟩
-      else .ok { it with depth := it.depth + 1 }
+        .ok (decide (¬ (it.idx + 1 > (e.rs.length : Int) - 1)), ⟨it.idx + 1, 0, e.hrAt (it.idx + 1)⟩)
+      else .ok (true, { it with depth := it.depth + 1 })
 
 /-- `hostlist_next(i)` -/
 def itNext (cfg : Cfg) (e : EL) (k : Nat) : EM (Option Str × EL) :=
   match e.getIt k with
   | none => .error "no such iterator"
   | some it =>
-    match itAdvance e it with
+    match itAdvance cfg e it with
     | .error w => .error w
-    | .ok it' =>
+    | .ok (has, it') =>
       let e' := e.setIt k it'
-      if it'.idx > (e.rs.length : Int) - 1 then .ok (none, e')
+      if !has then .ok (none, e')
       else
         match e.deref it'.hr with
         | .error w => .error w
